@@ -61,7 +61,8 @@ static int srv_open(int mode)
 	if (mode == SM_TCP) {
 		struct sockaddr_in sin; socklen_t sl = sizeof sin;
 		memset(&sin, 0, sizeof sin); sin.sin_family = AF_INET; sin.sin_addr.s_addr = htonl(INADDR_LOOPBACK);
-		s->lis = evconnlistener_new_bind(s->eb, NULL, NULL, LEV_OPT_CLOSE_ON_FREE | LEV_OPT_REUSEABLE | LEV_OPT_CLOSE_ON_EXEC, 16, (struct sockaddr *)&sin, sizeof sin);
+		for (int attempt = 0; attempt < 20 && !s->lis; attempt++)      /* an ephemeral port can be lost to a concurrent bind: retry */
+			s->lis = evconnlistener_new_bind(s->eb, NULL, NULL, LEV_OPT_CLOSE_ON_FREE | LEV_OPT_CLOSE_ON_EXEC, 16, (struct sockaddr *)&sin, sizeof sin);
 		if (!s->lis) return -1;
 		if (getsockname(evconnlistener_get_fd(s->lis), (struct sockaddr *)&s->saddr, &sl) < 0) return -1;
 		s->port = evdns_add_server_port_with_listener(s->eb, s->lis, 0, srv_user_cb, NULL);
